@@ -160,9 +160,11 @@ def longest_pair(pairs):
 ROLE_STREAMS = {RESPONDER: [STDIN], AUTHORIZER: [], FILTER: [STDIN, DATA]}
 
 
-def stream_junk(rng, rid):
+def stream_junk(rng, rid, no_begin=False):
     """records that the stream parser must skip (possibly with a reply) while request rid is active"""
     r = rng.random()
+    if no_begin and 0.6 <= r < 0.8:
+        r = 0.55
     pad = rng.choice([0, 0, 1, 7, 8, 255])
     other = rng.choice([x for x in [0, 1, 2, 65535, rng.randrange(65536)] if x != rid])
     if r < 0.3:
@@ -181,7 +183,7 @@ def stream_junk(rng, rid):
     return record(rng.choice([END, STDOUT, STDERR, GETVALUESRESULT, UNKNOWN]), rng.choice([0, rid, other]), [1, 2, 3], pad)
 
 
-def streams_part(rng, rid, role, contents, junk_rate=0.25, cuts_style=None, order=None):
+def streams_part(rng, rid, role, contents, junk_rate=0.25, cuts_style=None, order=None, no_begin=False):
     """records for the input streams of `role` in order; contents: {type: bytes}.
     returns list of records"""
     recs = []
@@ -189,10 +191,10 @@ def streams_part(rng, rid, role, contents, junk_rate=0.25, cuts_style=None, orde
         payload = contents.get(t, [])
         for r in stream_records(t, rid, payload, cut_list(rng, len(payload), cuts_style), rng):
             while rng.random() < junk_rate:
-                recs.append(stream_junk(rng, rid))
+                recs.append(stream_junk(rng, rid, no_begin))
             recs.append(r)
     while rng.random() < junk_rate:
-        recs.append(stream_junk(rng, rid))
+        recs.append(stream_junk(rng, rid, no_begin))
     return recs
 
 
